@@ -11,7 +11,7 @@
    mergeProps on (grouping of repeated class/style/listeners by [dedupe_props]); that part is
    covered by the oracle on real outputs. *)
 From VJ Require Import Model.Str Model.Json Model.Ast Model.State Model.Util Model.Directive
-  Model.Lower Spec.JsxText Spec.OutViews Spec.Site Spec.SiteCheck Lemmas.SiteProofs.
+  Model.Lower Spec.JsxText Spec.OutViews Spec.Site Spec.SiteCheck Lemmas.SiteProofs Lemmas.AttrsProofs Lemmas.ContribsProofs.
 
 Definition C01_full_statement : Prop :=
   forall E el s, filter (starts_with (s_ "C01:")) (check_site E 40 el (fst (lower_el E el s))) = [].
@@ -73,6 +73,22 @@ Theorem C01_transform_on_partial : forall E ic tag all name e a,
     /\ a_dirs a' = a_dirs a /\ a_slots a' = a_slots a.
 Proof. exact transform_on_refines. Qed.
 Print Assumptions C01_transform_on_partial.
+
+(* the element as a whole, without mergeProps: for every attribute list (v-models already
+   spliced) whose attributes each satisfy their own refinement ([contrib_ok]: proved for plain
+   attributes, spreads, runtime directives, v-html / v-text and v-model by the lemmas
+   contrib_ok_* of Lemmas/ContribsProofs.v) the props argument is the object of exactly the
+   denoted contributions, in source order ({} collapses to null, {...e} to e) *)
+Theorem C01_element_props_no_merge : forall E ic tag attrs s,
+  o_merge_props (e_opts E) = false ->
+  splice_vmodels attrs false = attrs ->
+  Forall (contrib_ok E ic tag attrs) attrs -> attrs <> [] ->
+  exists ps,
+    view_contribs (Obj ps) = fst (fst (spec_attrs E ic tag attrs))
+    /\ r_attrs (transform_attrs E attrs ic s)
+       = match ps with [] => Null | [Spread e] => e | _ => Obj ps end.
+Proof. exact contribs_refine. Qed.
+Print Assumptions C01_element_props_no_merge.
 
 (* non-vacuity: the hypotheses are met by ordinary attributes *)
 Example C01_nonvacuous :
